@@ -494,6 +494,9 @@ CHECK = {
         Clause("window-sweep", "every processing-window size (multiple of 12) from 588 to 1320 (thorough: to 20000)", cases=wsweep_cases, check=wsweep_check, setup=_setup),
         Clause("large-windows", "one window holding more values than every size constant mined from the converter's source", cases=scale_cases, check=scale_check, setup=_setup),
         Clause("channel-counts", "recordings with 1..13 saved channels: every channel is low-passed", cases=count_cases, check=count_check, setup=_setup),
+        Clause("folder-neighbours", "the file opens with the shape its OWN metadata declare: UUID dataset names next to another extraction's UUID-less metadata, symlinked data files, band names in folder names "
+               "(the reader's companion lookup, shared with C01)",
+               cases=lambda tier, seed: __import__("checks.c01", fromlist=["x"]).folder_cases(tier, seed), check=lambda case: __import__("checks.c01", fromlist=["x"]).folder_check(case)),
         Clause("call-histories", "every sequence (4 calls quick / 5 thorough after the first conversion) of process(), process(overwrite=True), new converter object and init_params(): "
                "after every call the LF stream on disk is the one first written", cases=hist_cases, check=hist_check, setup=_setup),
         Clause("rerun", "forced re-conversion (same / fresh converter, compress on/off) reproduces the LF stream", cases=rerun_cases, check=rerun_check, setup=_setup),
